@@ -34,16 +34,17 @@ typedef tbox::coroutine::Condition<int> Cond;
 
 namespace {
 enum Opc { CFG, RT, YIELD, WAIT, SEND, RECV, LOCK, UNLOCK, ACQ, REL, BWAIT, BPOST, CADD, CWAIT, CPOST, JOIN, CREATE, CANCEL, END,
-           MRUN, MPASS, MRESUME, MCANCEL, MCLEANUP, MSEND, MRELEASE, MBPOST, MCPOST, MCREATE, NOPS };
+           MRUN, MPASS, MRESUME, MCANCEL, MCLEANUP, MSEND, MRELEASE, MBPOST, MCPOST, MCREATE, MBREAK, LIFE, NOPS };
 const char *kOpNames[NOPS] = {"cfg", "rt", "yield", "wait", "send", "recv", "lock", "unlock", "acquire", "release", "bwait", "bpost",
                               "cadd", "cwait", "cpost", "join", "create", "cancel", "end",
-                              "mrun", "mpass", "mresume", "mcancel", "mcleanup", "msend", "mrelease", "mbpost", "mcpost", "mcreate"};
+                              "mrun", "mpass", "mresume", "mcancel", "mcleanup", "msend", "mrelease", "mbpost", "mcpost", "mcreate", "mbreak", "life"};
 const int kArity[NOPS] = {7, 3, 1, 1, 2, 2, 2, 2, 2, 2, 1, 1, 2, 1, 2, 2, 3, 2, 1,
-                          0, 1, 1, 1, 0, 1, 1, 0, 1, 2};
+                          0, 1, 1, 1, 0, 1, 1, 0, 1, 2, 0, 1};
 const size_t kStack = 256 * 1024;
 const int kMaxR = 6, kMaxObj = 2, kCondVals = 4;
 const int kMaxSteps = 40;        // per routine script (longer tails of an op list are ignored)
 const int kMaxMain = 60;
+const int kMaxLives = 3;        // lives of the ONE Scheduler object of a case (a life ends with cleanup())
 const int kMaxPasses = 4000;     // per "run until idle" (scripts are finite, so this is never reached on a working scheduler)
 
 enum Call { NONE = 0, C_YIELD, C_WAIT, C_RECV, C_LOCK, C_ACQ, C_BWAIT, C_CWAIT, C_JOIN };
@@ -58,13 +59,26 @@ struct RState {
   int style = 0;                 // 0 polls isCanceled() before every step; 1 never polls, returns when a blocking call fails; 2 / 3 never polls and
                                  // tries 1 / 2 more blocking steps after a failed one before it gives up (all legal: only a FAILED call obliges to return)
   bool created = false, started = false, ended = false, cancel_req = false, tainted = false;
+  bool made_ready = false;       // created with run_now=true, or resumed before it started: it has to be run
   RoutineToken tok;
   int call = NONE, obj = -1;     // blocking call the routine is inside of
   uint64_t call_seq = 0, call_mark = 0, must_fail_seq = 0;
   bool owed_b = false, owed_c = false;
 };
 
+// what one life of the scheduler consists of (decoded from the ops between two `life` markers)
+struct LifeSpec {
+  std::vector<Step> script[kMaxR];
+  int mode[kMaxR] = {0}, style[kMaxR] = {0};
+  bool have_rt[kMaxR] = {false};
+  std::vector<Step> mainscript;
+  int flags = 0;                 // bit0: keep the primitives (and what they hold) of the previous life, bit1: start right after cleanup() without running the loop idle first
+};
+
 struct Ctx {
+  std::vector<LifeSpec> lives;
+  int life = 0;
+  int hid(int r) const { return life * 8 + r; }   // identity of a mutex holder across lives
   tbox::event::Loop *loop = nullptr;
   std::unique_ptr<Scheduler> sch;
   std::unique_ptr<Channel<int>> ch[kMaxObj];
@@ -115,7 +129,7 @@ void do_create(Ctx &c, int t, bool run_now) {
   if (T.created || c.cleaned) return;
   ++c.marks;
   Ctx *cp = &c;
-  T.created = true;
+  T.created = true; T.made_ready = run_now;
   T.tok = c.sch->create([cp, t](Scheduler &s) { routine_main(cp, t, s); }, run_now, "r" + std::to_string(t), kStack);
 }
 
@@ -241,18 +255,18 @@ int exec_step(Ctx &c, int r, Scheduler &sch, const Step &st) {
       return ST_FAIL; }
     case LOCK: {
       int k = st.a % c.nmx;
-      pre = sch.isCanceled(); enter_cancelled(c, pre, c.holder[k] >= 0 && c.holder[k] != r);
+      pre = sch.isCanceled(); enter_cancelled(c, pre, c.holder[k] >= 0 && c.holder[k] != c.hid(r));
       begin_call(c, R, C_LOCK, k); uint64_t sq = R.call_seq;
       bool ok = c.mx[k]->lock();
       bool blocked = end_call(c, R);
       leave_cancelled(c, r, pre, blocked, "lock");
       if (ok) {
         if (R.must_fail_seq == sq) c.fail(fmt("routine %d was cancelled while suspended in lock(m%d), but the call returned success", r, k));
-        if (c.holder[k] >= 0 && c.holder[k] != r) c.fail(fmt("mutual exclusion broken: lock(m%d) succeeded for routine %d while routine %d holds it", k, r, c.holder[k]));
-        if (c.holder[k] == r) c.info->cls("mutex_recursive_lock");
+        if (c.holder[k] >= 0 && c.holder[k] != c.hid(r)) c.fail(fmt("mutual exclusion broken: lock(m%d) succeeded for routine %d while routine %d%s holds it", k, r, c.holder[k] % 8, c.holder[k] / 8 != c.life ? " of an earlier life" : ""));
+        if (c.holder[k] == c.hid(r)) c.info->cls("mutex_recursive_lock");
         if (c.unlock_pending[k] && !blocked) c.info->cls("mutex_retaken_before_woken_waiter_ran");
         if (blocked) { c.unlock_pending[k] = false; c.info->cls("lock_blocked_then_served"); }
-        c.holder[k] = r;
+        c.holder[k] = c.hid(r);
         return ST_OK;
       }
       if (!sch.isCanceled()) c.info->cls("lock_failed_without_cancel");
@@ -260,7 +274,7 @@ int exec_step(Ctx &c, int r, Scheduler &sch, const Step &st) {
     case UNLOCK: {
       int k = st.a % c.nmx;
       ++c.marks;
-      if (c.holder[k] == r) { c.holder[k] = -1; if (waiters(c, C_LOCK, k, r) >= 1) c.unlock_pending[k] = true; }
+      if (c.holder[k] == c.hid(r)) { c.holder[k] = -1; if (waiters(c, C_LOCK, k, r) >= 1) c.unlock_pending[k] = true; }
       else c.info->cls("unlock_by_non_holder");
       c.mx[k]->unlock();
       return ST_OK; }
@@ -369,6 +383,10 @@ void quiescence(Ctx &c, const char *when) {
   c.idle_checks++;
   for (int r = 0; r < c.nr; ++r) {
     RState &R = c.R[r];
+    // a routine that was made ready (create with run_now / resume) is run in the next pass.  A cancel of a routine that never started may run it
+    // once or remove it (left free), hence the exception
+    if (R.created && R.made_ready && !R.started && !R.cancel_req)
+      c.fail(fmt("%s: routine %d was made ready (created with run_now / resumed) but has never been run although the loop has nothing left to do", when, r));
     if (!R.started || R.ended) continue;
     if (R.cancel_req) { c.fail(fmt("%s: routine %d was cancelled but has not terminated (it is still inside %s)", when, r, call_name(R.call))); continue; }
     switch (R.call) {
@@ -409,6 +427,13 @@ void do_cleanup(Ctx &c) {
   if (blocked >= 1) c.info->cls("cleanup_with_blocked_routines");
   if (blocked >= 3) c.info->cls("cleanup_with_three_or_more_blocked");
   if (ready_or_new) c.info->cls("cleanup_with_unstarted_routines");
+  for (int r = 0; r < c.nr; ++r) {
+    RState &R = c.R[r];
+    if (R.created && !R.ended && ((R.made_ready && !R.started) || (R.started && R.call == C_YIELD))) {
+      c.info->cls("cleanup_with_routine_ready_but_not_run");
+      if (c.life + 1 < (int)c.lives.size()) c.info->cls("cleanup_with_ready_routine_then_scheduler_reused");
+    }
+  }
   c.in_cleanup = true;
   c.sch->cleanup();
   c.in_cleanup = false;
@@ -421,10 +446,40 @@ void do_cleanup(Ctx &c) {
   }
 }
 
+// Start life k of the scheduler: fresh routine table and scripts; fresh primitives and model unless the life keeps those of the previous one
+// (every routine of the previous life has terminated in cleanup(), so nothing refers to the old objects any more; tokens kept inside re-used
+// primitives are dead and, since Cabinet::clear() keeps its id counter, can never match a routine of the new life).
+void setup_life(Ctx &c, int k) {
+  const LifeSpec &L = c.lives[k];
+  c.life = k;
+  bool keep = k > 0 && (L.flags & 1);
+  for (int r = 0; r < kMaxR; ++r) { c.R[r] = RState(); c.R[r].script = L.script[r]; c.R[r].mode = L.mode[r]; c.R[r].style = L.style[r]; }
+  c.mainscript = L.mainscript;
+  c.cleaned = false; c.cw = -1;
+  for (int i = 0; i < kMaxObj; ++i) { c.burst_ch[i] = c.burst_sem[i] = 0; c.unlock_pending[i] = false; }
+  if (keep) {
+    c.info->cls("life_reuses_primitives_of_previous_life");
+    for (int i = 0; i < c.nmx; ++i) if (c.holder[i] >= 0) c.info->cls("reused_mutex_still_held_by_dead_routine");
+    for (int i = 0; i < c.nch; ++i) if (!c.mq[i].empty()) c.info->cls("reused_channel_holds_values");
+  } else {
+    for (int i = 0; i < kMaxObj; ++i) { c.mq[i].clear(); c.sent[i] = c.rcvd[i] = 0; c.holder[i] = -1; c.count[i] = c.init[i]; c.rels[i] = c.acqs[i] = 0; }
+    c.mset.clear(); c.pre_posted = false;
+    for (int i = 0; i < c.nch; ++i) c.ch[i].reset(new Channel<int>(*c.sch));
+    for (int i = 0; i < c.nmx; ++i) c.mx[i].reset(new Mutex(*c.sch));
+    for (int i = 0; i < c.nsem; ++i) c.sem[i].reset(new Semaphore(*c.sch, c.init[i]));
+    c.bc.reset(new Broadcast(*c.sch));
+    c.cond.reset(new Cond(*c.sch, c.logic_any ? Cond::Logic::kAny : Cond::Logic::kAll));
+  }
+  if (k == 1) c.info->cls("scheduler_reused_after_cleanup");
+  if (k == 2) c.info->cls("scheduler_third_life");
+  for (int r = 0; r < c.nr; ++r) if (c.R[r].mode != 2) do_create(c, r, c.R[r].mode == 0);
+}
+
 struct Driver {
   Ctx &c;
   size_t mpc = 0;
-  int phase = 0;            // 0 = executing main ops, 1 = running until idle, 2 = letting N passes go by, 3 = final idle, 4 = post-cleanup flush
+  bool brk = false;         // leave runLoop() after this pass and enter it again
+  int phase = 0;            // 0 = executing main ops, 1 = running until idle, 2 = letting N passes go by, 3 = final idle, 4 = flush after the last cleanup, 5 = flush between two lives
   int quiet = 0, passes = 0, remaining = 0;
   uint64_t last_marks = 0;
   bool done = false;
@@ -444,7 +499,7 @@ struct Driver {
         ++c.marks;
         if (T.started && !T.ended && T.call != NONE && T.call != C_WAIT && T.call != C_YIELD) { T.tainted = true; c.info->cls("main_resume_of_routine_blocked_in_primitive"); }
         else if (T.started && !T.ended && T.call == C_WAIT) c.info->cls("main_resume_of_waiting_routine");
-        else if (!T.started) { c.info->cls("main_resume_starts_routine"); if (waiters(c, C_JOIN, st.a % c.nr) >= 1) c.info->cls("main_resume_starts_join_target"); }
+        else if (!T.started) { T.made_ready = true; c.info->cls("main_resume_starts_routine"); if (waiters(c, C_JOIN, st.a % c.nr) >= 1) c.info->cls("main_resume_starts_join_target"); }
         c.sch->resume(T.tok);
         return false; }
       case MCANCEL: do_cancel(c, -1, st.a % c.nr); return false;
@@ -454,31 +509,44 @@ struct Driver {
       case MBPOST: do_bpost(c, -1); return false;
       case MCPOST: do_cpost(c, -1, st.a % kCondVals); return false;
       case MCREATE: do_create(c, st.a % c.nr, st.b & 1); return false;
+      case MBREAK: {
+        // leave runLoop() (Loop drains its deferred tasks on the way out) and enter it again: the loop run in pieces
+        c.info->cls("loop_left_and_entered_again");
+        for (int r = 0; r < c.nr; ++r) if (c.R[r].started && !c.R[r].ended && c.R[r].call == C_YIELD) c.info->cls("loop_left_while_a_routine_was_yielding");
+        ++c.marks; brk = true; return true; }
     }
     return false;
   }
 
+  void next_life() { setup_life(c, c.life + 1); mpc = 0; phase = 0; }
+
   void on_pass() {
     bool progress = c.marks != last_marks;
     ++c.marks;   // pass boundary
-    if (phase == 1 || phase == 3 || phase == 4) {
+    if (phase == 1 || phase == 3 || phase == 4 || phase == 5) {
       quiet = progress ? 0 : quiet + 1;
       if (++passes > kMaxPasses) { c.fail("the loop did not become idle within the pass bound although all scripts are finite"); quiet = 2; }
       if (quiet >= 2) {
         if (phase == 1) { quiescence(c, "loop idle"); if (c.requeued) { c.requeued = false; quiet = 0; } else phase = 0; }
-        else if (phase == 3) { quiescence(c, "final idle"); if (c.requeued) { c.requeued = false; quiet = 0; } else { do_cleanup(c); start_idle(4); } }
+        else if (phase == 3) { quiescence(c, "final idle"); if (c.requeued) { c.requeued = false; quiet = 0; } else { do_cleanup(c); phase = 0; } }
+        else if (phase == 5) next_life();
         else { done = true; }
       }
     } else if (phase == 2) {
       if (--remaining <= 0) phase = 0;
     }
     while (phase == 0 && !done) {
-      if (c.cleaned) { start_idle(4); break; }
+      if (c.cleaned) {
+        // this life is over (explicit cleanup at an arbitrary point, or the implicit one after the final idle check)
+        if (c.life + 1 >= (int)c.lives.size()) { start_idle(4); break; }
+        if (c.lives[c.life + 1].flags & 2) { c.info->cls("next_life_starts_right_after_cleanup"); next_life(); continue; }
+        start_idle(5); break;
+      }
       if (mpc >= c.mainscript.size()) { start_idle(3); break; }
       if (main_op(c.mainscript[mpc++])) break;
     }
     last_marks = c.marks;
-    if (done) c.loop->exitLoop(); else c.loop->runNext(tick, "verif::tick");
+    if (done || brk) c.loop->exitLoop(); else c.loop->runNext(tick, "verif::tick");
   }
 };
 
@@ -486,7 +554,6 @@ std::string run(const Scenario &s, CaseInfo &info) {
   std::unique_ptr<Ctx> cp(new Ctx);
   Ctx &c = *cp; c.info = &info;
   // ---- decode
-  bool have_rt[kMaxR] = {false};
   for (const Op &op : s.ops) {
     if (op.code == CFG) {
       c.nr = (int)op.in(0, 2, kMaxR); c.nch = (int)op.in(1, 1, kMaxObj); c.nmx = (int)op.in(2, 1, kMaxObj); c.nsem = (int)op.in(3, 1, kMaxObj);
@@ -494,32 +561,33 @@ std::string run(const Scenario &s, CaseInfo &info) {
       break;
     }
   }
+  c.lives.emplace_back();
   for (const Op &op : s.ops) {
-    if (op.code == RT) { int r = (int)op.in(0, 0, c.nr - 1); if (!have_rt[r]) { have_rt[r] = true; c.R[r].mode = (int)op.in(1, 0, 2); c.R[r].style = (int)op.in(2, 0, 3); } }
+    LifeSpec &L = c.lives.back();
+    if (op.code == LIFE) { if ((int)c.lives.size() < kMaxLives) { c.lives.emplace_back(); c.lives.back().flags = (int)op.in(0, 0, 3); } }
+    else if (op.code == RT) { int r = (int)op.in(0, 0, c.nr - 1); if (!L.have_rt[r]) { L.have_rt[r] = true; L.mode[r] = (int)op.in(1, 0, 2); L.style[r] = (int)op.in(2, 0, 3); } }
     else if (op.code >= YIELD && op.code <= END) {
       int r = (int)op.in(0, 0, c.nr - 1);
-      if ((int)c.R[r].script.size() < kMaxSteps) c.R[r].script.push_back(Step{op.code, (int)op.in(1, 0, 1023), (int)op.in(2, 0, 1023)});
-    } else if (op.code >= MRUN && op.code < NOPS) {
-      if ((int)c.mainscript.size() < kMaxMain) c.mainscript.push_back(Step{op.code, (int)op.in(0, 0, 1023), (int)op.in(1, 0, 1023)});
+      if ((int)L.script[r].size() < kMaxSteps) L.script[r].push_back(Step{op.code, (int)op.in(1, 0, 1023), (int)op.in(2, 0, 1023)});
+    } else if (op.code >= MRUN && op.code <= MBREAK) {
+      if ((int)L.mainscript.size() < kMaxMain) L.mainscript.push_back(Step{op.code, (int)op.in(0, 0, 1023), (int)op.in(1, 0, 1023)});
     }
   }
-  // ---- set up real objects
+  // ---- set up real objects: ONE loop and ONE scheduler for all lives of the case
   c.loop = tbox::event::Loop::New();
   if (!c.loop) return "Loop::New() failed";
   c.sch.reset(new Scheduler(c.loop));
-  for (int i = 0; i < c.nch; ++i) c.ch[i].reset(new Channel<int>(*c.sch));
-  for (int i = 0; i < c.nmx; ++i) c.mx[i].reset(new Mutex(*c.sch));
-  for (int i = 0; i < c.nsem; ++i) { c.sem[i].reset(new Semaphore(*c.sch, c.init[i])); c.count[i] = c.init[i]; }
-  c.bc.reset(new Broadcast(*c.sch));
-  c.cond.reset(new Cond(*c.sch, c.logic_any ? Cond::Logic::kAny : Cond::Logic::kAll));
-  for (int r = 0; r < c.nr; ++r) if (c.R[r].mode != 2) do_create(c, r, c.R[r].mode == 0);
+  setup_life(c, 0);
   // ---- drive
   {
     Driver d(c);
     d.tick = [&d] { d.on_pass(); };
     d.last_marks = c.marks;
-    c.loop->runNext(d.tick, "verif::tick");
-    c.loop->runLoop(tbox::event::Loop::Mode::kForever);
+    do {
+      d.brk = false;
+      c.loop->runNext(d.tick, "verif::tick");
+      c.loop->runLoop(tbox::event::Loop::Mode::kForever);
+    } while (!d.done);
     d.tick = nullptr;
   }
   // ---- statistics
@@ -529,7 +597,7 @@ std::string run(const Scenario &s, CaseInfo &info) {
   info.cls_if(c.idle_checks >= 3, "three_or_more_idle_checks");
   bool nt = false;
   for (auto p : info.classes)
-    if (!strcmp(p, "chan_two_waiters_two_posts") || !strcmp(p, "sem_two_waiters_two_posts") || !strcmp(p, "mutex_retaken_before_woken_waiter_ran") || !strcmp(p, "cancel_of_queued_waiter") || !strcmp(p, "cancel_of_unstarted_join_target") || !strcmp(p, "blocking_call_entered_after_cancellation") || !strcmp(p, "cond_all_completed_by_posts_before_and_during_wait")) nt = true;
+    if (!strcmp(p, "chan_two_waiters_two_posts") || !strcmp(p, "sem_two_waiters_two_posts") || !strcmp(p, "mutex_retaken_before_woken_waiter_ran") || !strcmp(p, "cancel_of_queued_waiter") || !strcmp(p, "cancel_of_unstarted_join_target") || !strcmp(p, "blocking_call_entered_after_cancellation") || !strcmp(p, "cond_all_completed_by_posts_before_and_during_wait") || !strcmp(p, "cleanup_with_ready_routine_then_scheduler_reused")) nt = true;
   info.nontrivial = nt;
   // ---- tear down (cleanup() has run; nothing is left inside the scheduler)
   for (int i = 0; i < kMaxObj; ++i) { c.ch[i].reset(); c.mx[i].reset(); c.sem[i].reset(); }
@@ -555,8 +623,14 @@ Scenario expand(int64_t seed) {
   int n = (int)pick({{2, 2}, {6, 3}, {6, 4}, {3, 5}, {2, 6}});
   int nch = (int)pick({{3, 1}, {1, 2}}), nmx = (int)pick({{3, 1}, {1, 2}}), nsem = (int)pick({{3, 1}, {1, 2}});
   mk(CFG, {n, nch, nmx, nsem, pick({{5, 0}, {2, 1}, {1, 2}}), pick({{5, 0}, {2, 1}, {1, 2}}), rng(0, 1)});
-  // theme: the primitive most routines of this case work on (so that waiters and posters meet)
+  // 1-3 lives of the one scheduler: each life has its own routines and main script and ends with cleanup() (explicit, at an arbitrary
+  // point, or implicit after the final idle check); the next life then creates new routines on the SAME scheduler
   enum { T_CHAN, T_SEM, T_MUTEX, T_BCAST, T_COND, T_JOIN, T_MIX };
+  int nlives = (int)pick({{5, 1}, {4, 2}, {1, 3}});
+  for (int li = 0; li < nlives; ++li) {
+  bool last_life = li == nlives - 1;
+  if (li) mk(LIFE, {pick({{4, 0}, {2, 1}, {3, 2}, {1, 3}})});   // bit0: keep the old primitives, bit1: no idle run between cleanup() and the new life
+  // theme: the primitive most routines of this life work on (so that waiters and posters meet)
   int theme = (int)pick({{5, T_CHAN}, {4, T_SEM}, {5, T_MUTEX}, {2, T_BCAST}, {5, T_COND}, {5, T_JOIN}, {4, T_MIX}});
   auto obj = [&]() -> int64_t { return pick({{5, 0}, {1, 1}}); };
   auto other = [&](int r) -> int64_t { int64_t t = rng(0, n - 2); return t >= r ? t + 1 : t; };
@@ -724,10 +798,11 @@ Scenario expand(int64_t seed) {
     mk(pj_who == 2 ? MCANCEL : MRESUME, {pj_t});
     if (rng(0, 3)) mrun();
   }
-  switch (pick({{5, 0}, {2, 1}, {1, 2}})) { case 0: mrun(); break; case 1: mk(MPASS, {rng(0, 2)}); break; default: break; }
+  switch (pick({{5, 0}, {2, 1}, {1, 2}, {1, 3}})) { case 0: mrun(); break; case 1: mk(MPASS, {rng(0, 2)}); break; case 3: mk(MPASS, {rng(0, 1)}); mk(MBREAK, {}); break; default: break; }
   int na = (int)pick({{2, 0}, {3, 1}, {3, 2}, {2, 4}, {1, 7}});
   for (int i = 0; i < na; ++i) {
-    switch (pick({{3, 0}, {2, 1}, {4, 2}, {5, 3}, {3, 4}, {3, 5}, {1, 6}, {2, 7}, {late ? 3 : 0, 8}})) {
+    switch (pick({{3, 0}, {2, 1}, {4, 2}, {5, 3}, {3, 4}, {3, 5}, {1, 6}, {2, 7}, {late ? 3 : 0, 8}, {1, 9}})) {
+      case 9: if (rng(0, 3)) mk(MPASS, {rng(0, 2)}); mk(MBREAK, {}); continue;   // leave the loop (possibly while routines are yielding) and run it again
       case 0: mrun(); continue;
       case 1: mk(MPASS, {rng(0, 2)}); continue;
       case 2: mk(MRESUME, {rng(0, n - 1)}); break;
@@ -740,7 +815,16 @@ Scenario expand(int64_t seed) {
     }
     switch (pick({{3, 0}, {1, 1}, {2, 2}})) { case 0: mrun(); break; case 1: mk(MPASS, {rng(0, 2)}); break; default: break; }
   }
-  if (rng(0, 5) == 0) mk(MCLEANUP, {});   // cleanup without a preceding idle check (routines may be ready)
+  if (last_life) { if (rng(0, 5) == 0) mk(MCLEANUP, {}); }   // cleanup without a preceding idle check (routines may be ready)
+  else switch (pick({{4, 0}, {2, 1}, {3, 2}, {3, 3}})) {       // a life that is followed by another one mostly ends with an explicit cleanup at an arbitrary point
+    case 0: mk(MCLEANUP, {}); break;
+    case 1: mk(MPASS, {rng(0, 2)}); mk(MCLEANUP, {}); break;
+    case 2:   // something is made ready (a routine resumed / created, a waiter woken) and cleanup() comes before it runs
+      switch (pick({{2, 0}, {2, 1}, {1, 2}, {1, 3}})) { case 0: mk(MRESUME, {rng(0, n - 1)}); break; case 1: mk(MCREATE, {rng(0, n - 1), 1}); break; case 2: mk(MSEND, {0}); break; default: mk(MRELEASE, {0}); break; }
+      mk(MCLEANUP, {}); break;
+    default: break;                                          // implicit: final idle check, then cleanup()
+  }
+  }
   return sc;
 }
 #endif
@@ -749,7 +833,7 @@ SubDef def = [] {
   SubDef d; d.name = "coroutines";
   d.op_names.assign(kOpNames, kOpNames + NOPS);
   d.op_arity.assign(kArity, kArity + NOPS);
-  d.nt_rule = "two or more routines suspended on one channel / semaphore while two posts were issued before any of them ran, or a mutex re-taken between the unlock that woke a waiter and the waiter running, or a cancel of a routine queued in recv / lock / acquire, or a cancel of a never-started routine while another routine is suspended in join() on it, or a blocking call that would have to suspend entered by a routine that had already been cancelled, or a kAll condition completed by one post before the waiter reached wait() and the rest while it waited";
+  d.nt_rule = "two or more routines suspended on one channel / semaphore while two posts were issued before any of them ran, or a mutex re-taken between the unlock that woke a waiter and the waiter running, or a cancel of a routine queued in recv / lock / acquire, or a cancel of a never-started routine while another routine is suspended in join() on it, or a blocking call that would have to suspend entered by a routine that had already been cancelled, or a kAll condition completed by one post before the waiter reached wait() and the rest while it waited, or cleanup() with a routine ready but not yet run followed by another life of the same scheduler";
   d.run = run;
 #ifndef VERIF_ENGINE_FUZZ
   d.gen = [] {
